@@ -62,7 +62,7 @@ class C09(CheckBase):
     stubbed_components = ['results of faulted read()/lseek()/fstat() system calls (decided by simkernel)']
 
     def budget(self, tier):
-        return 700 if tier == 'quick' else 6000
+        return 1500 if tier == 'quick' else 8000
 
     def time_cap(self, tier):
         return 600 if tier == 'quick' else 3600
@@ -108,10 +108,16 @@ class C09(CheckBase):
         if nl == 0:
             return None
         li = rng.below(nl)
+        empties = [i for i, (no, p) in enumerate(f['lines']) if len(p) == 0]
+        if empties and rng.chance(0.4):
+            li = rng.choice(empties)      # framing of an empty line is its own corner
         payload = f['lines'][li][1]
         plen = len(payload)
         kinds = ['len_small', 'len_big', 'len_off', 'token', 'tail_token']
         kinds += ['start'] if be else ['term']
+        if plen == 0:
+            # an empty line has only framing to damage
+            kinds = ['len_small', 'len_big', 'len_off'] + (['start'] * 3 if be else ['term'] * 3)
         kind = rng.choice(kinds)
         if kind == 'start':
             v = rng.choice([b for b in (0x00, 0x0A, 0x0C, 0x0E, 0x20, 0x8D, 0xFF, rng.below(256)) if b != 0x0D])
